@@ -37,13 +37,28 @@ def edge_length():
     return sp.sqrt(sp.factor_terms(sp.expand(sum(x * x for x in d))))
 
 
+V1, S1, M1 = sp.symbols("V1 S1 M1", real=True)
+phi1 = sp.Function("dihedral1", real=True)
+Vm1 = sp.Function("Vm1", real=True)
+sc = sp.Symbol("sc", positive=True)
+
+
 def core_with_contracts(shapes, volume=True):
-    """ConvexPolyhedron whose measures are their contract values and whose edges are the abstract sequence"""
-    ns = {"volume": property(lambda self: Sym(V0)), "surface_area": property(lambda self: Sym(S0)),
+    """ConvexPolyhedron whose measures are their contract values and whose edges are the abstract sequence.
+
+    _rescale (contract proved in C08) moves the object to a second abstract core state (V1, S1, Vm1, dihedral1) with the
+    same combinatorics: whatever the rescaled core is, the spheropolyhedron's getters must be Steiner's polynomial of it."""
+    def _rescale(self, s):
+        self._gen = 1
+        self._vertices = make("Vm1", (NV, 3))
+    ns = {"volume": property(lambda self: Sym(V1 if self._gen else V0)),
+          "surface_area": property(lambda self: Sym(S1 if self._gen else S0)),
           "_get_face_intersections": lambda self: edge_seq(),
-          "get_dihedral": lambda self, a, b: Sym(phi(to_expr(a), to_expr(b)))}
+          "get_dihedral": lambda self, a, b: Sym((phi1 if self._gen else phi)(to_expr(a), to_expr(b))),
+          "_rescale": _rescale}
     cls = type("ConvexPolyhedron_c11", (shapes.ConvexPolyhedron,), ns)
     o = object.__new__(cls)
+    o._gen = 0
     o._vertices = make("Vm", (NV, 3))
     return o
 
@@ -135,6 +150,30 @@ def run(chk):
             return o.mean_curvature
         for p in chk.explore(fk, run_mc):
             chk.prove_eq("spheropolyhedron.mean_curvature:steiner", fk, p.pc, ex(p.value), M0 + rr)
+
+        # no hidden state: after every getter has been read once and the shape has been resized by the real _rescale
+        # (core._rescale by its C08 contract: a second abstract core state), the getters are Steiner's polynomial of the
+        # *current* core and radius
+        L1 = sp.sqrt(sp.factor_terms(sp.expand(sum((Vm1(e0, sp.Integer(j)) - Vm1(e1, sp.Integer(j)))**2 for j in range(3)))))
+        Mcore1 = sum_over(E, L1 * (sp.pi - phi1(ei, ej))) / (8 * sp.pi)
+        r1 = rr * sc
+        specs = {"volume": V1 + S1 * r1 + 4 * sp.pi * Mcore1 * r1**2 + sp.Rational(4, 3) * sp.pi * r1**3,
+                 "surface_area": S1 + 8 * sp.pi * Mcore1 * r1 + 4 * sp.pi * r1**2,
+                 "mean_curvature": M1 + r1}
+        for member, spec in specs.items():
+            fk = chk.function(MODS, f"ConvexSpheropolyhedron.{member}[get]")
+
+            def run_hist(member=member):
+                o = sphero()
+                core = o._polyhedron
+                core.__class__ = type("c", (core.__class__,), {
+                    "mean_curvature": property(lambda self: Sym(M1 if self._gen else M0))}) if member == "mean_curvature" else core.__class__
+                before = (o.volume, o.surface_area) + ((o.mean_curvature,) if member == "mean_curvature" else ())
+                o._rescale(Sym(sc))
+                return getattr(o, member)
+            for p in chk.explore(fk, run_hist, assumptions=E.facts()):
+                chk.prove_eq(f"spheropolyhedron.{member}:steiner_after_read_and_rescale[{path_tag(p)}]", fk, p.pc, ex(p.value), spec,
+                             replay=lambda m, member=member: replay_read_rescale(member))
     chk.section("convexspheropolyhedron", "coxeter.shapes.convex_spheropolyhedron::ConvexSpheropolyhedron", sec_1)
 
     def sec_2():
@@ -188,6 +227,27 @@ def run(chk):
     chk.canary_eq("canary:steiner_with_wrong_coefficient", "coxeter.shapes.base_classes::Shape2D.iq[get]", V0 + S0 * rr, V0 + 2 * S0 * rr)
     from .bounded_c11 import run_bounded
     run_bounded(chk)
+
+
+def replay_read_rescale(member):
+    """box core a x b x c (closed-form V, S, M = (a+b+c)/4), radius r: read every getter, resize by the real _rescale, re-read"""
+    import itertools
+    import math
+    from .common import real_coxeter
+    cox = real_coxeter()
+    a, b, c, r, s = 1.0, 2.0, 3.0, 0.5, 2.0
+    verts = [[x, y, z] for x, y, z in itertools.product((0, a), (0, b), (0, c))]
+    o = cox.shapes.ConvexSpheropolyhedron(verts, r)
+    before = {m: float(getattr(o, m)) for m in ("volume", "surface_area", "mean_curvature")}
+    o._rescale(s)
+    a, b, c, r = a * s, b * s, c * s, r * s
+    V, S, Mc = a * b * c, 2 * (a * b + b * c + c * a), (a + b + c) / 4
+    want = {"volume": V + S * r + 4 * math.pi * Mc * r**2 + 4 / 3 * math.pi * r**3,
+            "surface_area": S + 8 * math.pi * Mc * r + 4 * math.pi * r**2, "mean_curvature": Mc + r}[member]
+    got = float(getattr(o, member))
+    return abs(got - want) > 1e-9 * want, {"core": "box 1x2x3", "radius": 0.5, "history": ["read volume, surface_area, mean_curvature",
+                                                                                          "_rescale(2.0)", f"read {member}"],
+                                           "observed": got, "steiner_of_current_state": want, "before": before}
 
 
 def _polygon_perimeter_spec():
